@@ -201,7 +201,7 @@ def c_hstate(h: dict | None) -> str:
 # storages and bodies
 # --------------------------------------------------------------------------------------
 
-STORAGES = ['ann', 'ann-nov1', 'status', 'smart']
+STORAGES = ['ann', 'ann-nov1', 'status', 'smart', 'multi']
 
 
 def make_settings(kind: str) -> Any:
@@ -214,6 +214,9 @@ def make_settings(kind: str) -> Any:
         s.persistence.progress_storage = K.progress.StatusProgressStorage()
     elif kind == 'smart':
         s.persistence.progress_storage = K.progress.SmartProgressStorage()
+    elif kind == 'multi':
+        s.persistence.progress_storage = K.progress.MultiProgressStorage([
+            K.progress.AnnotationsProgressStorage(prefix='my-op.example.com', v1=False), K.progress.StatusProgressStorage(name='myop')])
     else:
         raise ValueError(kind)
     return s
@@ -228,19 +231,55 @@ def put_records(storage: Any, raw: dict, recs: dict) -> dict:
     return raw
 
 
+def read_record(storage: Any, raw: dict, hid: str) -> Any:
+    """The harness's OWN reading of "the progress record of hid on the object": where the storage's store() puts it
+    (annotation names by the storage's key convention for THIS body, incl. the mark of Deployment-owned ReplicaSets; the
+    status field), decoded here -- not through the storage's fetch(), which is part of what is being checked."""
+    import json
+    P = K.progress
+    if isinstance(storage, P.MultiProgressStorage):
+        for sub in storage.storages:
+            got = read_record(sub, raw, hid)
+            if got is not None:
+                return got
+        return None
+    if isinstance(storage, P.AnnotationsProgressStorage):
+        anns = (raw.get('metadata') or {}).get('annotations') or {}
+        for full_key in storage.make_keys(hid, body=K.bodies.Body(raw)):
+            if anns.get(full_key) is not None:
+                return json.loads(anns[full_key])
+        return None
+    if isinstance(storage, P.StatusProgressStorage):
+        cur: Any = raw
+        for part in tuple(storage.field) + (hid,):
+            cur = cur.get(part) if isinstance(cur, dict) else None
+            if cur is None:
+                return None
+        return {k: v for k, v in cur.items() if v is not None}
+    raise RuntimeError(f'observation point missing: unknown progress storage {type(storage).__name__}')
+
+
 def fetch_model(storage: Any, raw: dict, hid: str) -> dict | None:
-    return model_record(storage.fetch(key=hid, body=K.bodies.Body(raw)))
+    return model_record(read_record(storage, raw, hid))
+
+
+def shape_of(raw: dict) -> dict:
+    """A body of the same kind / ownership (they decide the storage's key mark) and nothing else."""
+    meta = {'name': 'n'}
+    if (raw.get('metadata') or {}).get('ownerReferences'):
+        meta['ownerReferences'] = copy.deepcopy(raw['metadata']['ownerReferences'])
+    return {k: v for k, v in (('apiVersion', raw.get('apiVersion')), ('kind', raw.get('kind')), ('metadata', meta)) if v is not None}
 
 
 def patch_action(storage: Any, body_raw: dict, patch: dict, hid: str) -> Any:
     """What the patch does to the record of `hid`: a stored record | 'null' | None (untouched).
-    Storage-agnostic: only the public storage API and the harness's own RFC 7386 merge are used."""
-    base = {'metadata': {'name': 'n'}}
-    in_patch = storage.fetch(key=hid, body=K.bodies.Body(canon.merge7386(base, patch)))
+    Only store() of the real storage, the harness's own reader and its own RFC 7386 merge are used."""
+    base = shape_of(body_raw)
+    in_patch = read_record(storage, canon.merge7386(base, patch), hid)
     if in_patch is not None:
         return model_record(in_patch)
     probe = put_records(storage, copy.deepcopy(base), {hid: {'started': 0, 'retries': 7}})
-    after = storage.fetch(key=hid, body=K.bodies.Body(canon.merge7386(probe, patch)))
+    after = read_record(storage, canon.merge7386(probe, patch), hid)
     return 'null' if after is None else None
 
 
@@ -249,6 +288,12 @@ def base_body(case: dict, settings: Any) -> dict:
     raw: dict = {'apiVersion': 'kopf.dev/v1', 'kind': 'Kex',
                  'metadata': {'name': 'n', 'namespace': 'ns', 'uid': 'u', 'labels': {'app': 'x'}},
                  'spec': {'x': case.get('spec_x', 1)}}
+    shape = case.get('body_kind', 'kex')
+    if shape in ('rs', 'drs'):          # a ReplicaSet, plain or owned by a Deployment (the storages mark the keys of the latter)
+        raw['apiVersion'], raw['kind'] = 'apps/v1', 'ReplicaSet'
+        if shape == 'drs':
+            raw['metadata']['ownerReferences'] = [{'apiVersion': 'apps/v1', 'kind': 'Deployment', 'name': 'dep', 'uid': 'du',
+                                                   'controller': True, 'blockOwnerDeletion': True}]
     reason, lh = case['reason'], case['last_handled']
     if reason in ('delete', 'free'):
         raw['metadata']['deletionTimestamp'] = '2030-01-01T00:00:00Z'
@@ -265,8 +310,9 @@ def base_body(case: dict, settings: Any) -> dict:
     return raw
 
 
-def diffbase_written(settings: Any, patch: dict) -> bool:
-    return settings.persistence.diffbase_storage.fetch(body=K.bodies.Body(canon.merge7386({'metadata': {}}, patch))) is not None
+def diffbase_written(settings: Any, patch: dict, raw: dict | None = None) -> bool:
+    base = shape_of(raw) if raw is not None else {'metadata': {}}
+    return settings.persistence.diffbase_storage.fetch(body=K.bodies.Body(canon.merge7386(base, patch))) is not None
 
 
 # --------------------------------------------------------------------------------------
@@ -483,7 +529,7 @@ def observe_on(case: dict, raw: dict, settings: Any, stub: bool, memory: dict) -
         v = st.get(k) if isinstance(st, dict) else None
         deliv.append(v['v'] if isinstance(v, dict) and 'v' in v else (v if isinstance(v, int) and not isinstance(v, bool) else None))
     obs['delivered'] = deliv
-    obs['diffbase'] = diffbase_written(settings, obs['patch'])
+    obs['diffbase'] = diffbase_written(settings, obs['patch'], raw)
     obs['extras'], obs['processed'] = parse_log(obs['log'])
     return obs
 
@@ -578,6 +624,7 @@ def pipeline_term(case: dict, obs: dict, stub: bool) -> tuple[str, str]:
 # --------------------------------------------------------------------------------------
 
 IDS = ['a', 'b', 'c', 'd', 'e']
+BODY_KINDS = ['kex'] * 7 + ['drs'] * 2 + ['rs']      # custom resource / ReplicaSet owned by a Deployment / plain ReplicaSet
 MSGS = ['boom', 'later', 'no', 'x y']
 
 
@@ -672,7 +719,8 @@ def gen_case(r: random.Random, stub: bool) -> dict:
     now = r.randrange(1000, 100000) * Q
     case: dict[str, Any] = {'reason': reason, 'now': now, 'storage': r.choice(STORAGES),
                             'lifecycle': r.choice(LIFECYCLES if stub else LIFECYCLES[:3]),
-                            'spec_x': r.randrange(1, 9), 'mem_listed': r.random() < 0.5}
+                            'spec_x': r.randrange(1, 9), 'mem_listed': r.random() < 0.5,
+                            'body_kind': r.choice(BODY_KINDS)}
     case['last_handled'] = {'create': 'none', 'update': 'diff', 'resume': 'same', 'noop': 'same'}.get(reason) or r.choice(['none', 'same', 'diff'])
     case['initial'] = True if reason == 'resume' else False if reason == 'noop' else r.random() < 0.35
     case['finalizer'] = r.random() < 0.5
@@ -982,7 +1030,8 @@ def algebra_cases(ctx: fw.Ctx, n: int) -> list[fw.Case]:
         pool = ['a/s1', 'b/s1', 'z']
         recs = {hid: gen_record(r, now, r.choice(REASONS), pool, r.random() < 0.7) for hid in IDS if r.random() < 0.6}
         owned = [x for x in IDS if r.random() < 0.8]
-        raw = put_records(storage, {'metadata': {'name': 'n'}}, recs)
+        shape = r.choice(BODY_KINDS)
+        raw = put_records(storage, shape_of(base_body({'reason': 'create', 'last_handled': 'none', 'body_kind': shape}, settings)), recs)
         ops: list[dict] = []
         for _ in range(r.randrange(1, 5)):
             k = r.randrange(10)
@@ -1133,6 +1182,7 @@ def judge(ctx: fw.Ctx, case: dict, obs: dict, stub: bool, cases: list[fw.Case], 
                          diag=diag))
     ctx.count('pipeline_reason', obs['reason'])
     ctx.count('pipeline_lifecycle', case['lifecycle'])
+    ctx.count('body_kind', f"{case.get('body_kind', 'kex')}/{case['storage']}")
     ctx.count('pipeline_branch', 'not-a-handling-cause' if obs['reason'] not in REASONS else 'skip' if not obs['selected'] else
               'closed' if obs['fho'] else 'open')
     ctx.count('pipeline_supersession', 'extras' if obs['extras'] else 'none')
@@ -1182,6 +1232,7 @@ def gen_history(r: random.Random) -> dict:
         ev = 'none' if k < 9 else 'spec' if k < 13 else 'toggle' if k < 16 else 'restart' if k < 18 else 'delete' if k < 19 else 'early'
         steps.append({'event': ev, 'which': r.randrange(0, 8)})
     return {'storage': r.choice(STORAGES), 'lifecycle': r.choice(LIFECYCLES[:3]), 'handlers': hs, 'script': script, 'steps': steps,
+            'body_kind': r.choice(BODY_KINDS),
             'start': r.choice(['new', 'listed-handled']), 'now': r.randrange(1000, 50000) * Q}
 
 
@@ -1190,7 +1241,7 @@ def run_history(ctx: fw.Ctx, hist: dict, cases: list[fw.Case], runs: list[fw.Cas
     handlers = copy.deepcopy(hist['handlers'])
     now = hist['now']
     base = {'reason': 'create' if hist['start'] == 'new' else 'resume', 'last_handled': 'none' if hist['start'] == 'new' else 'same',
-            'finalizer': True, 'spec_x': 1}
+            'finalizer': True, 'spec_x': 1, 'body_kind': hist.get('body_kind', 'kex')}
     raw = base_body(base, settings)
     mem = {'noticed_by_listing': hist['start'] != 'new', 'fully_handled_once': False}
     succeeded: dict[str, int] = {}
